@@ -138,7 +138,7 @@ CHECKS = {
              "and the correctly rounded conversions (near ties are excluded, counted). TLC checks monotonicity, "
              "score-probability-score identity, mutual inverses from Q=10, and refutes the as-found table and encoder. "
              "Every function of alphabet/letters.go and seq/quality is dumped for all 256 scores, bytes and 7 encodings "
-             "plus thousands of sampled probabilities; QualityTrace.tla judges each value. Decoding a byte to the other score kind must equal the encoding's own decode followed by the stated conversion.",
+             "plus thousands of sampled probabilities; QualityTrace.tla judges each value. Decoding a byte to the other score kind must equal the encoding's own decode followed by the stated conversion. A probability whose nearest score cannot be held (sampled down to the denormals and up to 1-1e-15) must saturate at the end of the score range, never wrap around.",
         note="Trusted: Go's float64 to (mantissa, exponent) rendering in the driver. Accuracy beyond 4 significant digits "
              "is not decided; a score of one kind under an encoding of the other kind is drift only.",
         ref="DESIGN.md §6 C18"),
@@ -255,7 +255,7 @@ CHECKS = {
              "strands, self and non-self - and PalsTrace.tla judges every hit (inside both sequences, both lengths >= "
              "minimum, error <= 1 - minimum identity, and for a sample of hits score <= the optimal global alignment "
              "score of its regions under +1/-3/-3) and requires every planted copy to be recovered by the pass of its "
-             "strand, and no trivial self hit. PalsSelf.tla states the geometry of filter tubes, the merger's self-comparison guard and the aligner's band around the main diagonal (negative control: the guard as found, refuted); self comparisons over 45 consecutive lengths with a tandem repeat bind it to the code. Short repeats (1.2 x minimum) with substitutions near their ends are planted too.",
+             "strand, and no trivial self hit. PalsSelf.tla states the geometry of filter tubes, the merger's self-comparison guard and the aligner's band around the main diagonal (negative control: the guard as found, refuted); self comparisons over 45 consecutive lengths with a tandem repeat bind it to the code. Short repeats (1.2 x minimum) with substitutions near their ends are planted too (under identity thresholds from 0.9: below, the unchanged tree loses about 1 in 150 of them - a listed finding whose recorded comparison is repeated and judged in every run), and a quarter of the copies carry one gap run of up to MaxIGap letters.",
         note="Trusted: the driver's planting of repeats and coordinate bookkeeping. The score bound is judged for a sample "
              "of hits with regions <= 170 letters; recall is judged for copies >= 1.5 x minimum length with at most a third "
              "of the allowed differences.",
